@@ -18,6 +18,14 @@ def _to_seconds(value: time_unit_type) -> float:
     return float(value.total_seconds() if isinstance(value, timedelta) else value)
 
 
+def _exponential(multiplier: float, exp_base: float, attempts: int) -> float:
+    """``multiplier * exp_base**attempts``, saturating instead of overflowing."""
+    try:
+        return multiplier * exp_base**attempts
+    except OverflowError:
+        return float("inf") if multiplier > 0 else 0.0
+
+
 @dataclass(frozen=True)
 class RetryInfo:
     """Snapshot of the currently-executing step's retry state.
@@ -486,7 +494,7 @@ class wait_exponential(_WaitStrategyBase):
     def __call__(self, attempts: int, *, seed: int | None = None) -> float:
         return max(
             max(0.0, self.min),
-            min(self.multiplier * self.exp_base**attempts, self.max),
+            min(_exponential(self.multiplier, self.exp_base, attempts), self.max),
         )
 
 
@@ -566,7 +574,7 @@ class wait_exponential_jitter(_WaitStrategyBase):
         self.jitter = jitter
 
     def __call__(self, attempts: int, *, seed: int | None = None) -> float:
-        base = min(self.initial * self.exp_base**attempts, self.max)
+        base = min(_exponential(self.initial, self.exp_base, attempts), self.max)
         rng = random.Random(seed) if seed is not None else random
         return min(base + rng.uniform(0, self.jitter), self.max)
 
@@ -600,7 +608,7 @@ class wait_random_exponential(_WaitStrategyBase):
         rng = random.Random(seed) if seed is not None else random
         upper = max(
             max(0.0, self.min),
-            min(self.multiplier * self.exp_base**attempts, self.max),
+            min(_exponential(self.multiplier, self.exp_base, attempts), self.max),
         )
         return rng.uniform(self.min, upper)
 
